@@ -85,10 +85,10 @@ def rule_R1_structural(ctx, prj):
             if attr_chain(c.func) != "SourceFileEntry" or len(c.args) < 5:
                 continue
             n += 1
-            loc, ms = c.args[3], c.args[4]
+            loc, ms = _unwrap(prj, fi, c.args[3]), _unwrap(prj, fi, c.args[4])
             key = f"{fi.local}/SourceFileEntry"
             ok = False
-            forms = [(loc, ms), (expand(fi, loc), expand(fi, ms)), (expand(fi, loc), ms)]
+            forms = [(loc, ms), (_unwrap(prj, fi, expand(fi, loc)), _unwrap(prj, fi, expand(fi, ms))), (_unwrap(prj, fi, expand(fi, loc)), ms)]
             lt, mt = term(fi, loc), unparse(ms)
             for le, me in forms:
                 l_, m_ = unparse(le), unparse(me)
@@ -98,16 +98,72 @@ def rule_R1_structural(ctx, prj):
                     ok = True
                 elif l_.endswith("['loc']"):
                     base = l_[: -len("['loc']")]
-                    ok = ok or (isinstance(ms, ast.Name) and _filled_from(fi, ms.id, f"{base}['measurements']"))
+                    ok = ok or (isinstance(ms, ast.Name) and (_filled_from(fi, ms.id, f"{base}['measurements']")
+                                                              or any(_filled_from(fi, ms.id, unparse(w)) for w in _wrappings(prj, fi, f"{base}['measurements']"))))
                 if ok:
                     lt, mt = l_, m_
                     break
             if ok:
                 ctx.ok("R1", fi.site(c), f"{key}: loc = {lt[:50]} belongs to measurements {mt}")
-            else:
+            elif _clearly_unrelated(lt, mt):
                 ctx.viol("R1", key, fi.site(c), f"the entry's line total is {lt[:70]} while its measurements are {mt}: the total is not the sum of the lengths stored with it")
+            else:
+                raise AnalysisError(f"{fi.site(c)}: how the line total {lt[:60]} relates to the measurements {mt[:40]} is not understood")
     if n < 3:
         raise AnalysisError(f"only {n} SourceFileEntry constructions found on the scan/read paths (3 confirmed by reading)")
+
+
+def _identity_wrappers(prj) -> set:
+    """functions of the project that return their first argument unchanged on every path (validators such as _typed(value, type))"""
+    key = id(prj)
+    if key not in _IDW:
+        out = set()
+        for q, f in prj.funcs.items():
+            ps = [p for p in f.params() if p not in ("self", "cls")]
+            rets = [n for n in f.walk() if isinstance(n, ast.Return)]
+            if ps and rets and all(isinstance(r.value, ast.Name) and r.value.id == ps[0] for r in rets) and not any(
+                    isinstance(n, (ast.Assign, ast.AugAssign)) and ps[0] in {t.id for t in ast.walk(n) if isinstance(t, ast.Name) and isinstance(t.ctx, ast.Store)} for n in f.walk()):
+                out.add(f.name)
+        _IDW[key] = out
+    return _IDW[key]
+
+
+_IDW: dict = {}
+
+
+def _unwrap(prj, fi, e):
+    """e with calls of identity wrappers replaced by their first argument"""
+    names = _identity_wrappers(prj)
+
+    class Strip(ast.NodeTransformer):
+        def visit_Call(self, n):
+            self.generic_visit(n)
+            if (attr_chain(n.func) or "").split(".")[-1] in names and n.args:
+                return n.args[0]
+            return n
+    import copy
+    return Strip().visit(copy.deepcopy(e)) if e is not None else e
+
+
+def _wrappings(prj, fi, source: str):
+    """the iterables in fi that are `source` wrapped in an identity wrapper"""
+    out = []
+    for n in fi.walk():
+        if isinstance(n, ast.Call) and n.args and unparse(_unwrap(prj, fi, n)) == source and unparse(n) != source:
+            out.append(n)
+    return out
+
+
+def _clearly_unrelated(lt: str, mt: str) -> bool:
+    """positively wrong pairings: a count where a sum belongs, or loc and measurements of two different objects"""
+    if lt.startswith("len("):
+        return True
+    for suf, other in ((".loc", ".measurements()"), ("['loc']", None)):
+        if lt.endswith(suf):
+            base = lt[: -len(suf)]
+            if other and mt.endswith(other) and mt[: -len(other)] != base:
+                return True
+    return False
 
 
 def _filled_from(fi: FuncInfo, name: str, source: str, depth=0) -> bool:
@@ -118,12 +174,12 @@ def _filled_from(fi: FuncInfo, name: str, source: str, depth=0) -> bool:
     for v, _ in local_defs(fi, name):
         if v is None:
             continue
-        if isinstance(v, ast.ListComp) and len(v.generators) == 1 and unparse(v.generators[0].iter) == source:
+        if isinstance(v, ast.ListComp) and len(v.generators) == 1 and source in (unparse(v.generators[0].iter), unparse(expand(fi, v.generators[0].iter))):
             return True
         if isinstance(v, ast.Name) and _filled_from(fi, v.id, source, depth + 1):
             return True
     for l in fi.walk():
-        if isinstance(l, ast.For) and unparse(l.iter) == source:
+        if isinstance(l, ast.For) and source in (unparse(l.iter), unparse(expand(fi, l.iter))):
             for a in ast.walk(l):
                 if isinstance(a, ast.Call) and isinstance(a.func, ast.Attribute) and a.func.attr == "append" and unparse(a.func.value) == name:
                     return True
